@@ -159,12 +159,16 @@ def _plain_op(mod: nn.Module, st: Dict[str, Any], a: List[Any]) -> Any:
             return F.scaled_dot_product_attention(a[0], a[1], a[2])
         if style == "causal":
             return F.scaled_dot_product_attention(a[0], a[1], a[2], is_causal=True)
+        if style == "scale_kw":
+            return F.scaled_dot_product_attention(a[0], a[1], a[2], scale=0.3)
         if style == "mask_kw":
             return F.scaled_dot_product_attention(a[0], a[1], a[2], attn_mask=mask)
         if style == "mask_kw_p0":
             return F.scaled_dot_product_attention(a[0], a[1], a[2], attn_mask=mask, dropout_p=0.0)
         if style == "mask_pos":
             return F.scaled_dot_product_attention(a[0], a[1], a[2], mask, 0.0, False)
+        if style == "mask_pos_scale":
+            return F.scaled_dot_product_attention(a[0], a[1], a[2], mask, 0.0, False, scale=0.3)
         raise ValueError(style)
     if op == "u_sdpa":
         if st.get("style") == "causal":
@@ -324,15 +328,37 @@ def recipe_analysis(spec: Dict[str, Any]) -> Dict[str, Any]:
 # the reference interpreter
 
 
+class _Jitter(torch.autograd.Function):
+    """Identity up to one float32 ulp: value and gradient are multiplied elementwise by
+    (1 + eps * u), u uniform in [-1, 1] from a seeded generator.  Used to measure how much a
+    program amplifies rounding-level perturbations of its intermediates (the band inside
+    which two executions can differ 'only by float rounding')."""
+
+    @staticmethod
+    def forward(ctx: Any, x: torch.Tensor, eps: float, seed: int) -> torch.Tensor:  # type: ignore[override]
+        ctx.eps, ctx.seed = eps, seed
+        g = torch.Generator().manual_seed(seed)
+        u = torch.rand(x.shape, generator=g, dtype=torch.float64) * 2 - 1
+        return (x.double() * (1 + eps * u)).to(x.dtype)
+
+    @staticmethod
+    def backward(ctx: Any, gr: torch.Tensor) -> Any:  # type: ignore[override]
+        g = torch.Generator().manual_seed(ctx.seed + 7919)
+        u = torch.rand(gr.shape, generator=g, dtype=torch.float64) * 2 - 1
+        return (gr.double() * (1 + ctx.eps * u)).to(gr.dtype), None, None
+
+
 class Reference:
     """Executes `spec` eagerly with parameters / submodules taken from `holder` (usually
     the transformed module, so both sides compute with the same numbers)."""
 
     def __init__(self, spec: Dict[str, Any], us: bool = False,
                  q: Optional[Tuple[Sequence[Any], Sequence[Any]]] = None,
-                 replace: Optional[Dict[str, str]] = None) -> None:
+                 replace: Optional[Dict[str, str]] = None,
+                 jitter: Optional[Tuple[float, int]] = None) -> None:
         self.spec = spec
         self.us = us
+        self.jitter = jitter
         self.q = (mk_format(q[0]), mk_format(q[1])) if q else None
         self.replace = replace or {}
         self.analysis = recipe_analysis(spec) if us else None
@@ -373,6 +399,8 @@ class Reference:
                 args = [read(a) for a in st["args"]]
                 constrained = (not an) or (st["out"] in an["has_residual_successor"])
                 val = self._op(holder, st, args, constrained)
+            if self.jitter and isinstance(val, torch.Tensor) and val.is_floating_point() and val.numel():
+                val = _Jitter.apply(val, self.jitter[0], self.jitter[1] * 1000 + idx)
             define(st["out"], val)
         return tuple(env[n] for n in spec["outputs"])
 
@@ -460,8 +488,12 @@ class Reference:
             kw: Dict[str, Any] = {}
             if style == "causal":
                 kw["is_causal"] = True
+            elif style == "scale_kw":
+                kw["scale"] = 0.3
             elif style.startswith("mask"):
                 kw["attn_mask"] = mask
+            if style == "mask_pos_scale":
+                kw["scale"] = 0.3
             qq, kk, vv = self._qf(a[0]), self._qf(a[1]), self._qf(a[2])
             if us or op == "u_sdpa":
                 return self._qb(U.scaled_dot_product_attention(qq, kk, vv, **kw))
